@@ -214,6 +214,18 @@ theorem alloc_order_product :
       f.events.take 4 = [.conformable, .sizeCheck, .capacityCheck, .alloc] := by
   decide
 
+/-- every capacity check uses the element size of the matrix being BUILT and the full element
+count of the result: `Self` and the requested shape's size in the shape-taking functions (the
+receiver is the result there), `Matrix::<U>` (the output element type) with the source's size in
+the mapping functions and with the result shape's size in the products; one check per function -/
+theorem capacity_checks_on_output :
+    Gen.allocCapacityChecks.map (·.1) = Gen.allocFns.map (·.name) ∧
+    ∀ c ∈ Gen.allocCapacityChecks, ∀ f ∈ Gen.allocFns, f.name = c.1 →
+      (f.kind = .shapeTaking → c.2.1 = "Self" ∧ c.2.2 = "shape.size()") ∧
+      (f.kind = .mapping → c.2.1 = "Matrix::<U>" ∧ c.2.2 = "self.size()") ∧
+      (f.kind = .product → c.2.1 = "Matrix::<U>" ∧ c.2.2 = "shape.size()") := by
+  decide
+
 /-- the table covers every function the property names -/
 theorem alloc_fns_complete :
     Gen.expectedAllocFns.all (fun n => Gen.allocFns.any (fun f => f.name == n)) = true := by
